@@ -15,6 +15,7 @@ FIXED = [
  ("C18","1c3d3e7","oas/yaml11-names/json-vs-*","json-yaml-differ","format=json retyped YAML-1.1 boolean-looking names (a field named n became the property \"false\")"),
  ("C13","be5a135","gobuild/text/header-{description,example}/{quotes,newline,crlf}/*","unparsable-go-source","a header description/example containing a quote or a line break was pasted unquoted into a Go string literal (go-http) or a line comment (go-client): protogen reported 'unparsable Go source' and nothing was emitted"),
  ("C16","dfe72ea","terminate/text/field-example/empty/openapiv3/*","panic","an empty string among a field's (sebuf.http.field_examples) made protoc-gen-openapiv3 crash in the YAML renderer (nil dereference, no response)"),
+ ("C19","4dfe284","rules/*/ignore=always","schema-rejects-what-rules-accept","fields with (buf.validate.field).ignore = IGNORE_ALWAYS still had their rules published as schema constraints and were listed as required"),
  ("C19","727f1e6","rules/numeric-gt*","invalid-schema","gt/lt rules were published as exclusiveMinimum/exclusiveMaximum: false (bound lost, boolean form invalid in OpenAPI 3.1)"),
 ]
 
